@@ -1,7 +1,10 @@
 package main
 
 import (
+	"fmt"
+	"go/token"
 	"golang.org/x/tools/go/ssa"
+	"strings"
 )
 
 func init() {
@@ -20,6 +23,11 @@ var c05NM = []string{"ExecuteNSortMConcurrent", "ExecuteNConcurrentMSort", "Exec
 func isRuleExec(call *ssa.Call) bool { return calleeIs(call, pBase, "RuleEntity", "Execute") }
 
 func runC05(c *Ctx) {
+	// the pool's mix / inverse-mix / N-M methods hand the model's error to their caller
+	c.armPoolError("B6-pool-reports-the-error", func(m string) bool {
+		return strings.Contains(m, "Mix") || strings.Contains(m, "NSort") || strings.Contains(m, "NConcurrent")
+	}, 10)
+
 	kind := map[string]string{}
 	var all []string
 	for _, n := range c05Mix {
@@ -52,8 +60,10 @@ func runC05(c *Ctx) {
 		switch kind[n] {
 		case "mix":
 			c.ruleSyncSingles("B2-sync-first-last", fn, fos, E, "first")
+			c.ruleFanOutNotSkipped("B2-sync-first-last", fn, fos)
 		case "inverse":
 			c.ruleSyncSingles("B2-sync-first-last", fn, fos, E, "last")
+			c.ruleFanOutNotSkipped("B2-sync-first-last", fn, fos)
 		case "nm":
 			c.ruleSyncSingles("B2-sync-first-last", fn, fos, E, "")
 			// only the two window stages count (the selection loop is not a stage)
@@ -77,3 +87,123 @@ func runC05(c *Ctx) {
 }
 
 func fmtKey(fn, what string, i int) string { return fn + "#" + what + string(rune('0'+i)) }
+
+// ruleFanOutNotSkipped (B2): the concurrent stage of a mix / inverse-mix model runs whenever there is a
+// rule for it. A way from the entry to a return that may carry no error and does not pass the fan-out
+// loop is allowed only over an edge on which the rule list is known to hold at most one rule.
+func (c *Ctx) ruleFanOutNotSkipped(rule string, fn *ssa.Function, fos []*fanout) {
+	x := c.Index(fn)
+	for i, fo := range fos {
+		if fo.loop == nil || fo.ranged == nil || fo.goStmt.Parent() != fn {
+			continue
+		}
+		base, _, _ := x.sliceInterval(fo.ranged)
+		key := fmt.Sprintf("%s#fan%d/not-skipped", fnName(fn), i+1)
+		sameList := func(v ssa.Value) (int64, bool) {
+			b2, lo2, _ := x.sliceInterval(v)
+			if len(lo2.terms) != 0 {
+				return 0, false
+			}
+			if x.sameValue(b2, base) || (x.Cell(b2) != nil && x.Cell(b2) == x.Cell(base)) {
+				return lo2.k, true
+			}
+			return 0, false
+		}
+		forbidden := map[edgeKey]bool{}
+		for _, b := range fn.Blocks {
+			if len(b.Instrs) == 0 || len(b.Succs) != 2 {
+				continue
+			}
+			iff, isIf := b.Instrs[len(b.Instrs)-1].(*ssa.If)
+			if !isIf {
+				continue
+			}
+			arg, _, thi, _, fhi, ok := x.lenTest(iff.Cond)
+			if !ok {
+				continue
+			}
+			off, same := sameList(arg)
+			if !same {
+				continue
+			}
+			if thi != lenInf && thi+off <= 1 {
+				forbidden[edgeKey{b, 0}] = true
+			}
+			if fhi != lenInf && fhi+off <= 1 {
+				forbidden[edgeKey{b, 1}] = true
+			}
+		}
+		// the stop tag found set ends the execution by design (C14): that edge is a legitimate way round
+		var sp *ssa.Parameter
+		for _, p := range fn.Params {
+			if isNamedPtr(p.Type(), pEngine, "Stag") {
+				sp = p
+			}
+		}
+		if sp != nil {
+			for _, b := range fn.Blocks {
+				if len(b.Instrs) == 0 || len(b.Succs) != 2 {
+					continue
+				}
+				iff, isIf := b.Instrs[len(b.Instrs)-1].(*ssa.If)
+				if !isIf {
+					continue
+				}
+				cond, pol := iff.Cond, true
+				for {
+					u, isU := cond.(*ssa.UnOp)
+					if !isU || u.Op != token.NOT {
+						break
+					}
+					cond, pol = u.X, !pol
+				}
+				if x.tagRead(cond, sp) != nil {
+					if pol {
+						forbidden[edgeKey{b, 0}] = true
+					} else {
+						forbidden[edgeKey{b, 1}] = true
+					}
+				}
+			}
+		}
+		// the rules may also be run another way (a short list executed one after the other): any loop
+		// that executes rules counts as the stage
+		heads := map[ssa.Instruction]bool{fo.loop.Head.Instrs[0]: true}
+		for _, l := range x.Loops(fn) {
+			runs := false
+			for blk := range l.Blocks {
+				for _, i2 := range blk.Instrs {
+					if _, isGo := i2.(*ssa.Go); isGo {
+						runs = true
+					}
+					if call, isCall := i2.(*ssa.Call); isCall && isRuleExec(call) {
+						runs = true
+					}
+				}
+			}
+			if runs && len(l.Head.Instrs) > 0 {
+				heads[l.Head.Instrs[0]] = true
+			}
+		}
+		bad, badPos := "", fn.Pos()
+		eachInstr(fn, func(in ssa.Instruction) {
+			r, isRet := in.(*ssa.Return)
+			if !isRet || bad != "" || len(r.Results) != 1 {
+				return
+			}
+			mayBeNil := false
+			for _, ev := range x.ValuesAt(r.Results[0], r) {
+				if ev.V == nil || isConstNil(ev.V) {
+					mayBeNil = true
+				}
+			}
+			if !mayBeNil {
+				return
+			}
+			if _, reach := x.pathExistsFlags(fn, nil, func(i2 ssa.Instruction) bool { return i2 == ssa.Instruction(r) }, forbidden, func(i2 ssa.Instruction) bool { return heads[i2] }); reach {
+				bad, badPos = "a return without an error at "+c.pos(r.Pos())+" is reachable without the concurrent stage, over no edge that leaves at most one rule", r.Pos()
+			}
+		})
+		c.Check(rule, key, bad == "", badPos, "%s", orStr(bad, "the concurrent stage runs whenever the list holds a rule for it"))
+	}
+}
